@@ -157,6 +157,7 @@ struct Layout {
     splits: usize,
     psep: usize,        // 0 ",", 1 ", ", 2 random of "," ", " " , " ",  "
     na: &'static str,   // what the spec's NA character `~` is written as
+    wsx: &'static str,  // what the spec's non-ASCII white-space character '`' is written as
     trailing_nl: usize, // 0 never, 1 always, 2 random per file
     pre: bool,
     odd_paths: bool,    // included files and the blacklist file have runs of blanks / a tab in their names
@@ -164,7 +165,7 @@ struct Layout {
 
 fn layout(id: usize, rng: &mut Rng) -> Layout {
     if id == 0 {
-        return Layout { id, indent: 2, sep_max: 1, cmt: 0, own: 0, permute: false, splits: 0, psep: 1, na: "\u{e9}", trailing_nl: 1, pre: false, odd_paths: false };
+        return Layout { id, indent: 2, sep_max: 1, cmt: 0, own: 0, permute: false, splits: 0, psep: 1, na: "\u{e9}", wsx: "\u{a0}", trailing_nl: 1, pre: false, odd_paths: false };
     }
     Layout {
         id,
@@ -175,7 +176,11 @@ fn layout(id: usize, rng: &mut Rng) -> Layout {
         permute: id % 2 == 0 || rng.chance(1, 3),
         splits: if id == 1 { 0 } else { rng.below(4) },
         psep: rng.below(3),
-        na: *rng.pick(&["\u{e9}", "\u{1F600}", "~", "\u{e9}"]),
+        // one representative per Unicode class (L3): letters, emoji, ASCII `~`, DEL, C1 control, private use, combining
+        // mark, digits and numerics outside ASCII, Kelvin sign / fullwidth K (look like a unit), case-mapping oddities
+        na: *rng.pick(&["\u{e9}", "\u{1F600}", "~", "\u{7f}", "\u{80}", "\u{e000}", "\u{301}", "\u{663}", "\u{ff11}", "\u{1d7d9}",
+                        "\u{b2}", "\u{bd}", "\u{2167}", "\u{212a}", "\u{ff2b}", "\u{df}", "\u{130}", "\u{fb01}"]),
+        wsx: *rng.pick(&["\u{a0}", "\u{85}", "\u{1680}", "\u{2028}", "\u{3000}"]),
         trailing_nl: rng.below(3),
         pre: rng.chance(1, 2),
         odd_paths: rng.chance(1, 2),
@@ -272,7 +277,7 @@ struct Emitter<'a> {
 
 impl<'a> Emitter<'a> {
     fn na(&self, x: &str) -> String {
-        x.replace('~', self.lay.na)
+        x.replace('~', self.lay.na).replace('`', self.lay.wsx)
     }
     fn ind(&self, depth: usize, rng: &mut Rng) -> String {
         match self.lay.indent {
@@ -530,7 +535,7 @@ fn disagree(exp: &Value, obs: &Obs, r: &Rendered, lay: &Layout) -> Option<String
             // a quotation mark inside a string / a route pattern: the literal reading or a rejection (Config.tla OddQuotes)
             if exp["lenient"].as_bool().unwrap_or(false) && (obs.kind == "parse-error" || obs.kind == "tree-error") { return None; }
             if obs.kind != "ok" { return Some(format!("expected the described configuration, got {} ({} line {}: {})", obs.kind, obs.file, obs.line, obs.msg)); }
-            let want = map_strings(&exp["cfg"], "~", lay.na);
+            let want = map_strings(&map_strings(&exp["cfg"], "~", lay.na), "`", lay.wsx);
             if want != obs.cfg {
                 let (w, g) = (want.as_object().unwrap(), obs.cfg.as_object().unwrap());
                 let mut d = vec![];
@@ -651,9 +656,10 @@ fn rand_ast(rng: &mut Rng) -> Ast {
     let mut scal: Vec<Entry> = vec![];
     let p = |rng: &mut Rng| rng.chance(1, 2);
     if p(rng) { scal.push(key("address", &q(&rand_str(rng, &["0.0.0.0", "127.0.0.1", "::1", "my host", " my   host "])))); }
-    if p(rng) { let x = 1 + rng.below(65535); scal.push(key("port", &rng.pick(&[0usize, 1, 80, 443, 8080, 65535, x]).to_string())); }
-    if p(rng) { scal.push(key("threads", &rng.range(1, 512).to_string())); }
-    if p(rng) { let x = rng.below(100000); scal.push(key("timeout", &rng.pick(&[0usize, 1, 5, 60, x]).to_string())); }
+    if p(rng) { let x = 1 + rng.below(65535); scal.push(key("port", &rng.pick(&[0usize, 1, 80, 255, 256, 443, 8080, 65534, 65535, x]).to_string())); }
+    const BIG: [&str; 9] = ["255", "256", "65535", "65536", "16777217", "2147483648", "4294967297", "9007199254740993", "9223372036854775807"];
+    if p(rng) { let x = rng.range(1, 512).to_string(); scal.push(key("threads", if rng.chance(1, 4) { *rng.pick(&BIG) } else { &x })); }
+    if p(rng) { let x = rng.below(100000); let y = rng.pick(&[0usize, 1, 5, 60, x]).to_string(); scal.push(key("timeout", if rng.chance(1, 4) { *rng.pick(&BIG) } else { &y })); }
     if p(rng) { scal.push(key("websocket", &q(&rand_str(rng, &["localhost:1234", "ws:80"])))); }
     let mut bl_ips = vec![];
     let mut b = vec![];
@@ -673,13 +679,15 @@ fn rand_ast(rng: &mut Rng) -> Ast {
     if p(rng) {
         let x = rng.below(1 << 20);
         let n = *rng.pick(&[0usize, 1, 128, 1023, x]);
-        c.push(key("size", &format!("{}{}", n, rng.pick(&["", "K", "M", "G"]))));
+        let v = format!("{}{}", n, rng.pick(&["", "K", "M", "G"]));
+        c.push(key("size", if rng.chance(1, 4) { *rng.pick(&["8589934591G", "8796093022207M", "9007199254740991K", "4194304K", "4095M", "9223372036854775807", "4294967296"]) } else { &v }));
     }
-    if p(rng) { let x = rng.below(1000000); c.push(key("time", &rng.pick(&[0usize, 1, 60, x]).to_string())); }
+    if p(rng) { let x = rng.below(1000000); let y = rng.pick(&[0usize, 1, 60, x]).to_string(); c.push(key("time", if rng.chance(1, 4) { *rng.pick(&BIG) } else { &y })); }
     if !c.is_empty() { scal.push(sect("sec", "cache", vec![], c)); }
     if rng.chance(1, 6) { scal.push(sect("sec", "tls", vec![], vec![key("cert_file", &q("cert.pem")), key("key_file", &q("key.pem")), key("force", "false")])); }
     if rng.chance(1, 6) { scal.push(sect("sec", "plugins", vec![], vec![sect("sec", "php", vec![], vec![key("library", &q("php.so")), key("threads", "8")])])); }
     if rng.chance(1, 6) { scal.push(key("colour", &q("red"))); }
+    if rng.chance(1, 60) { for i in 0..rng.range(30, 70) { scal.push(key(&format!("x{}", i), &q(&format!("v {}", i)))); } }
     let nh = rng.below(5);
     let hostpats = ["localhost", "*.my  site.com", "127.0.0.1", " * ", "a.b\tc"];
     let mut ordered: Vec<Entry> = vec![];
@@ -801,13 +809,30 @@ fn inject(ast: &mut Ast, rng: &mut Rng) {
     } else if e.t == "key" {
         let numeric = e.v.chars().next().map(|c| c.is_ascii_digit()).unwrap_or(false);
         let quoted = e.v.starts_with('"');
-        let mut opts = vec!["MissingValue", "NonAscii", "LoneQuote", "BlankValue", "EmptyString", "TripleQuote", "UnterminatedQuote1", "ValueOnNextLine"];
+        let mut opts = vec!["MissingValue", "NonAscii", "LoneQuote", "BlankValue", "EmptyString", "TripleQuote", "UnterminatedQuote1", "ValueOnNextLine", "UnicodeSpace"];
+        if ["mode", "level", "load_balancer_mode"].contains(&e.k.as_str()) || e.v == "true" || e.v == "false"
+            || (numeric && e.v.ends_with(|c| c == 'K' || c == 'M' || c == 'G')) { opts.push("OtherCase"); opts.push("OtherCase"); }
         if numeric { opts.extend(["BadNumber", "UnknownUnit", "TooBig", "OutOfRange"]); }
         if quoted { opts.push("UnterminatedQuote"); }
         if quoted && ["mode", "level", "load_balancer_mode"].contains(&e.k.as_str()) { opts.push("BadEnum"); }
         cls = *rng.pick(&opts);
         match cls {
             "MissingValue" => e.v = String::new(),
+            "UnicodeSpace" => {
+                let n = e.v.chars().count();
+                e.v = match rng.below(4) {
+                    0 => format!("{}`", e.v),
+                    1 => format!("`{}", e.v),
+                    2 if !e.v.contains('@') && n >= 2 => { let i = *rng.pick(&[1, n - 1]); insert_na(&e.v, i).replace('~', "`") }
+                    _ => "`".to_string(),
+                };
+            }
+            "OtherCase" => {
+                e.v = if e.v.starts_with('"') && rng.chance(1, 2) { let mut c: Vec<char> = e.v.chars().collect(); c[1] = c[1].to_ascii_uppercase(); c.into_iter().collect() }
+                      else if numeric { e.v.to_ascii_lowercase() }
+                      else if rng.chance(1, 2) { e.v.to_ascii_uppercase() }
+                      else { let mut c: Vec<char> = e.v.chars().collect(); let i = if c[0] == '"' { 1 } else { 0 }; c[i] = c[i].to_ascii_uppercase(); c.into_iter().collect() };
+            }
             "LoneQuote" => e.v = "\"".to_string(),
             "BlankValue" => e.v = "   ".to_string(),
             "EmptyString" => e.v = q(""),
@@ -816,7 +841,8 @@ fn inject(ast: &mut Ast, rng: &mut Rng) {
             "ValueOnNextLine" => { next_line = Some(if rng.chance(1, 2) { "\"".to_string() } else { e.v.clone() }); e.v = String::new(); }
             "BadNumber" => e.v = rng.pick(&[format!("{}x", e.v), "1.5".to_string(), "--1".to_string(), "1e3".to_string()]).clone(),
             "UnknownUnit" => { let d: String = e.v.chars().filter(|c| c.is_ascii_digit()).collect(); e.v = format!("{}{}", d, rng.pick(&["T", "KB", " M", "KK"])); }
-            "TooBig" => e.v = rng.pick(&["9999999999G", "8589934592G", "99999999999999999999", "17179869184G", "17179869185G"]).to_string(),
+            "TooBig" => e.v = rng.pick(&["9999999999G", "8589934592G", "99999999999999999999", "17179869184G", "17179869185G", "18014398509481984K",
+                                         "36028797018963969K", "17592186044416M", "17592186044417M", "8796093022208M", "9223372036854775808"]).to_string(),
             "OutOfRange" => e.v = if e.k == "threads" && rng.chance(1, 2) { "0".to_string() } else { rng.pick(&["-1", "-1K"]).to_string() },
             "UnterminatedQuote" => e.v = if rng.chance(1, 2) { e.v[..e.v.len() - 1].to_string() } else { e.v[1..].to_string() },
             "BadEnum" => e.v = q("bogus"),
@@ -830,6 +856,7 @@ fn inject(ast: &mut Ast, rng: &mut Rng) {
         match rng.below(6) {
             0 | 1 => { e.cb = String::new(); cls = "MissingCloseBrace"; }
             2 | 3 => { e.ob = String::new(); cls = "MissingOpenBrace"; }
+            4 if rng.chance(1, 2) => { if rng.chance(1, 2) { e.ob = "{`".into(); } else { e.cb = "}`".into(); } cls = "UnicodeSpace"; }
             4 => { if rng.chance(1, 2) { e.ob = "{~".into(); } else { e.cb = "}~".into(); } cls = "NonAscii"; }
             _ => {
                 if e.t == "host" {
@@ -840,6 +867,13 @@ fn inject(ast: &mut Ast, rng: &mut Rng) {
                         2 => { e.ps[0] = q("\""); cls = "TripleQuote"; }
                         _ => { e.ps[0] = if rng.chance(1, 2) { t[..t.len() - 1].to_string() } else { t[1..].to_string() }; cls = "UnterminatedQuote"; }
                     }
+                } else if e.t == "route" && rng.chance(1, 3) {
+                    match rng.below(3) {
+                        0 => e.ps.push(String::new()),
+                        1 => e.ps.insert(0, String::new()),
+                        _ => e.ps.insert(1, String::new()),
+                    }
+                    cls = "EmptyPattern";
                 } else if e.t == "route" && rng.chance(1, 2) {
                     let n = e.ps.len();
                     match rng.below(3) {
@@ -883,7 +917,7 @@ fn random(dir: &str, n: usize) {
         let tok = json!({"same_file": o.kind == "parse-error" && o.file == r.files[fi].path,
                          "open": at("open").map(|x| x.1).unwrap_or(0), "close": at("close").map(|x| x.1).unwrap_or(0),
                          "line": at("line").map(|x| x.1).unwrap_or(0), "nlines": r.files[fi].lines.len()});
-        let cfg = map_strings(&o.cfg, lay.na, "~");
+        let cfg = map_strings(&map_strings(&o.cfg, lay.na, "~"), lay.wsx, "`");
         let line = if o.line > 1_000_000_000 { 1_000_000_000 } else { o.line };
         out_line(&json!({"ast": ast_json(&ast), "obs": {"kind": o.kind, "cfg": cfg, "line": line}, "tok": tok,
                          "layout": {"na": lay.na, "splits": lay.splits, "permute": lay.permute, "files": r.files.len()}}));
